@@ -75,6 +75,9 @@ pub const NOTIFIER_DISARMED: u32 = 26;
 pub const ENTER: u32 = 27;
 /// The driver returned from the kernel.
 pub const ENTER_RETURN: u32 = 28;
+/// An `AwakeFlag` operation (`set`, `reset` or `wake`) is about to be performed by
+/// this thread; the event of the operation itself is recorded after it.
+pub const AWAKE_BEGIN: u32 = 29;
 /// A pool worker thread started (a = counter value before the increment).
 pub const WORKER_START: u32 = 30;
 /// A pool worker thread exits (idle timeout).
